@@ -8,7 +8,8 @@ from .c01 import dedup_names
 
 RULE = ("case = (generated 3D plotfile spec with properly nested levels, mixed box sizes (runs of 1-3 blocks, e.g. 4/8/12 or "
         "8/16/24 cells), partial refinement, anisotropic cells, 1-4 levels, scattered layouts; field; volfrac on/off; level limit "
-        "in {None, 0..finest}); the returned integral compared with the exact rational sum over cells not covered by a finer "
+        "in {None, 0..finest}; one reader object reused for a shuffled sequence of calls with different limits; variants whose cells "
+        "under the next level hold NaN/inf filler); the returned integral compared with the exact rational sum over cells not covered by a finer "
         "selected level (oracle) and with the Lean model's integral; the field `one` must integrate to the domain volume; "
         "non-trivial = >=2 levels or mixed box sizes")
 
@@ -51,7 +52,7 @@ def model_request(spec, truth, k, kvol, L):
     for lv in range(L + 1):
         boxes = []
         for bid, (lo, hi) in enumerate(spec["levels"][lv]):
-            a = truth[(lv, bid)]
+            a = np.where(np.isfinite(truth[(lv, bid)]), truth[(lv, bid)], 2.0 ** 100)   # filler of covered cells: huge sentinel
             v = a[..., k].flatten(order="F")
             if kvol is not None:
                 w = a[..., kvol].flatten(order="F")
@@ -63,7 +64,7 @@ def model_request(spec, truth, k, kvol, L):
     return {"op": "pestle", "repaired": True, "levels": levels}
 
 
-def run_case(ctx, rep, spec, field, volfrac, limit, model, path=None, truth=None, cli=False, start=None):
+def run_case(ctx, rep, spec, field, volfrac, limit, model, path=None, truth=None, cli=False, start=None, pck=None):
     from amr_kitchen import PlotfileCooker
     from amr_kitchen.pestle.pestle import volume_integral
     if path is None:
@@ -74,7 +75,14 @@ def run_case(ctx, rep, spec, field, volfrac, limit, model, path=None, truth=None
     L = nlev - 1 if limit is None else limit
     sizes = {hi[d] - lo[d] + 1 for boxes in spec["levels"] for lo, hi in boxes for d in range(3)}
     case = {"spec": spec, "field": field, "volfrac": volfrac, "limit": limit, "cli": cli}
-    rep.case({"s": spec, "f": field, "v": volfrac, "l": limit, "cli": cli}, nontrivial=(nlev >= 2 or len(sizes) > 1))
+    if pck is not None:
+        # one reader object reused for a sequence of calls: the earlier calls are part of the case
+        pck[1].append([field, volfrac, limit])
+        case["history"] = [list(h) for h in pck[1][:-1]]
+        rep.count("reused-reader")
+    if spec["data"].get("covered_fill"):
+        rep.count("non-finite-filler-in-covered-cells")
+    rep.case({"s": spec, "f": field, "v": volfrac, "l": limit, "cli": cli, "h": case.get("history")}, nontrivial=(nlev >= 2 or len(sizes) > 1))
     rep.count(f"levels:{nlev}"); rep.count(f"limit:{limit}"); rep.count("volfrac" if volfrac else "plain")
     rep.count("mixed-sizes" if len(sizes) > 1 else "uniform-sizes")
     k = names[field]
@@ -95,13 +103,22 @@ def run_case(ctx, rep, spec, field, volfrac, limit, model, path=None, truth=None
                     raise RuntimeError("no integral printed")
                 got = float(m.group(1))
             else:
-                pck = PlotfileCooker(path, ghost=True)
-                got = float(volume_integral(pck, field, limit_level=limit, use_volfrac=volfrac))
+                if pck is None:
+                    reader = PlotfileCooker(path, ghost=True)
+                else:
+                    if pck[0] is None:
+                        pck[0] = PlotfileCooker(path, ghost=True)
+                    reader = pck[0]
+                got = float(volume_integral(reader, field, limit_level=limit, use_volfrac=volfrac))
     except SystemExit as e:
         rep.fail(f"pestle exited ({e.code}) on a valid invocation", case); return
     except Exception as e:
         rep.fail(f"pestle raised {type(e).__name__}: {e}", case); return
     w = float(want)
+    if not np.isfinite(got):
+        rep.fail(f"integral is {got}: a value of a cell covered by a finer selected level (non-finite filler) was used; the sum "
+                 f"over uncovered cells is {w} (levels 0..{L})", case, obs={"got": repr(got), "want": w})
+        return
     tol = 1e-9 * max(1.0, abs(w)) if not cli else 1e-9 * max(1.0, abs(w)) + 1e-14
     if abs(got - w) > tol:
         rep.fail(f"integral {got} differs from the sum over uncovered cells {w} (levels 0..{L})", case, obs={"got": got, "want": w})
@@ -188,10 +205,33 @@ def run(ctx, rep, model=True):
         for j, (f, vf, lim) in enumerate(combos):
             run_case(ctx, rep, spec, f, vf, lim, model, path, truth, cli=(j == 1 and i % 2 == 0),
                      start=[None, pools.order_reversed][j % 2])
+        if nlev >= 2 and i % 2 == 0:
+            # one reader object for a sequence of calls with different limits and fields
+            pck = [None, []]
+            seq = [("density", False, L) for L in range(nlev)] + [("one", False, None), ("density", True, 0), ("density", False, nlev - 1)]
+            ctx.rng.shuffle(seq)
+            for f, vf, lim in seq:
+                run_case(ctx, rep, spec, f, vf, lim, model and lim is None, path, truth, pck=pck)
+        if nlev >= 2 and i % 4 in (1, 2):
+            # the cells lying under the next level hold NaN / inf: only selections including every level use none of them
+            spec2 = dict(spec, data=dict(spec["data"], covered_fill=["nan", "mix", "inf"][i % 3]))
+            path2 = ctx.newdir("c09n_")
+            truth2 = plotgen.materialize(spec2, path2)
+            for j, (f, vf, lim) in enumerate([("density", False, None), ("density", True, nlev - 1), ("one", False, None)]):
+                run_case(ctx, rep, spec2, f, vf, lim, model, path2, truth2, cli=(j == 2 and i % 4 == 1))
         if len(rep.violations) >= 10:
             return
 
 
 def replay(ctx, rep, obj, model=True):
     c = obj["case"]
+    pck = None
+    if c.get("history"):
+        pck = [None, []]
+        path = ctx.newdir("c09_")
+        truth = plotgen.materialize(c["spec"], path)
+        for f, vf, lim in c["history"]:
+            run_case(ctx, rep, c["spec"], f, vf, lim, False, path, truth, pck=pck)
+        run_case(ctx, rep, c["spec"], c["field"], c["volfrac"], c["limit"], model, path, truth, pck=pck)
+        return
     run_case(ctx, rep, c["spec"], c["field"], c["volfrac"], c["limit"], model, cli=c.get("cli", False))
